@@ -331,3 +331,226 @@ Section WithExec.
   Definition recovered (g : config) (C : list block) (nd : node) : Prop :=
     n_status nd = Running /\ exists j, synced_to g C nd j.
 End WithExec.
+
+(* ================================================================================================
+   Signature payload providers and transient store read faults.
+
+   The definitions above are the node with the DEFAULT signature payload provider whose store reads
+   never fail; they are kept as they are (C05, the composition theorems and the P2P ingress model are
+   stated on them) and are the instance [prov = 0], no fault, of the definitions below
+   (Proofs/SyncerProofs.v: try_sync_f_base, process_f_base, boot_p_base, frun_lift).
+
+   (1) block.ManagerOptions.SignaturePayloadProvider (manager.go:266, Manager.signaturePayloadProvider):
+       the function of the header whose result the proposer signs and every verifier checks
+       (types/signed_header.go:125-143).  By harness index: 0 = types.DefaultSignaturePayloadProvider
+       (the header's bytes), p > 0 = some other function.  Symbolic: the payload of h under p is the
+       term [payload p h]; idealisation: different providers never yield the same bytes for a block
+       header (harness: sha256 of a provider tag and the header bytes).
+       WHICH provider verifies is decided where the header is used: trySyncNextBlock attaches the
+       Manager's provider to the cached header object right before Validate (sync.go:155-156), so the
+       verifier attached to the object when it entered the cache — an unexported field that the gob files
+       of a clean shutdown do not keep (pkg/cache SaveToDisk/LoadFromDisk) — never matters.
+   (2) store.Height() returning an error while the process lives on.  SyncLoop reads the height once in
+       the header case (sync.go:49-53, error: the event is skipped, nothing cached, nothing marked as
+       seen), once in the data case AFTER the seen test (sync.go:93-97, same), and once per iteration of
+       trySyncNextBlock (sync.go:137-140, error: trySyncNextBlock returns it and SyncLoop sends it on
+       errCh and returns — without marking the event as seen; the item it had put into the cache stays
+       there and is saved on the way out).  A fault of one event handling is [Some n]: the (n+1)-th
+       store.Height() call made while the event is handled fails (if that many are made).
+       GetBlockData fails only inside handleEmptyDataHash (sync.go:197-203), where the error is ignored
+       (it only leaves LastDataHash of the prepared metadata empty, which nothing compares).
+   ================================================================================================ *)
+
+Definition payload (p : N) (h : header) : header :=
+  if p =? 0 then h
+  else {| h_height := 0; h_time := 0%Z; h_chain := p; h_last := Some h; h_data := []; h_app := 0;
+          h_proposer := AddrEmpty |}.
+
+(* SignedHeader.ValidateBasic with signatureProvider = provider p — types/signed_header.go:105-143;
+   Types.validate_basic is the instance p = 0 *)
+Definition validate_basic_p (p : N) (sh : sheader) : bool :=
+  negb (addr_eqb (h_proposer (sh_hdr sh)) AddrEmpty) &&
+  match sh_sig sh with SigEmpty => false | _ => true end &&
+  addr_eqb (h_proposer (sh_hdr sh)) (sg_addr (sh_signer sh)) &&
+  match sg_pub (sh_signer sh) with
+  | Some pk => addr_eqb (sg_addr (sh_signer sh)) (key_address pk) &&
+               verify_header pk (payload p (sh_hdr sh)) (sh_sig sh)
+  | None => false
+  end.
+
+(* Manager.execValidate on a header that carries provider p — block/manager.go:794-829;
+   Types.validate is the instance p = 0 *)
+Definition validate_p (p : N) (s : cstate) (sh : sheader) (d : data) : bool :=
+  validate_basic_p p sh && validate_pair sh d &&
+  (h_chain (sh_hdr sh) =? s_chain s)%N &&
+  (h_height (sh_hdr sh) =? s_height s + 1)%N &&
+  negb ((1 <? h_height (sh_hdr sh))%N && (h_time (sh_hdr sh) <? s_time s)%Z) &&
+  (h_app (sh_hdr sh) =? s_app s)%N.
+
+(* read faults of one event handling *)
+Definition fault_now (flt : option nat) : bool := match flt with Some O => true | _ => false end.
+Definition tick (flt : option nat) : option nat := match flt with Some (S n) => Some n | _ => None end.
+Definition halting_flt (flt : option nat) : bool := match flt with Some (S _) => true | _ => false end.
+
+(* histories with read faults *)
+Inductive fitem :=
+| FEv (e : event) (flt : option nat)   (* one event; flt = the store.Height() call of its handling that fails *)
+| FRestart                             (* clean stop (caches saved; also after SyncLoop returned by itself) and start *)
+| FCrash (e : event) (k : nat)
+| FCrashBoot (k : nat).
+
+Definition lift (i : item) : fitem :=
+  match i with IEv e => FEv e None | IRestart => FRestart | ICrash e k => FCrash e k | ICrashBoot k => FCrashBoot k end.
+
+(* an item that may make SyncLoop return / an item after which a new SyncLoop runs *)
+Definition halting (i : fitem) : bool := match i with FEv _ flt => halting_flt flt | _ => false end.
+Definition boots (i : fitem) : bool := match i with FEv _ _ => false | _ => true end.
+(* decidable guard "no read fault inside trySyncNextBlock since the last start" *)
+Fixpoint live_after (b : bool) (h : list fitem) : bool :=
+  match h with
+  | [] => b
+  | i :: r => live_after (if boots i then true else if halting i then false else b) r
+  end.
+
+Section WithProv.
+  Variable exec : root -> N -> Z -> list tx -> root.
+  Variable prov : N.     (* the node's ManagerOptions.SignaturePayloadProvider *)
+
+  Definition set_status (st : loopst) (s : status) : loopst :=
+    {| l_disk := l_disk st; l_last := l_last st; l_cache := l_cache st; l_log := l_log st; l_ws := l_ws st;
+       l_status := s |}.
+
+  (* trySyncNextBlock: sync.go:127-188, with the height read of every iteration (sync.go:137-140) and the
+     verifier attached before Validate (sync.go:155-156) *)
+  Fixpoint try_sync_f (fuel : nat) (flt : option nat) (st : loopst) : loopst :=
+    match fuel with
+    | O => set_status st FuelOut
+    | S f =>
+        if fault_now flt then set_status st Halted        (* currentHeight, err := m.store.Height(ctx); return err *)
+        else
+        let next := d_height (l_disk st) + 1 in
+        match lookup (c_hdrs (l_cache st)) next with
+        | None => st
+        | Some sh =>
+            match lookup (c_data (l_cache st)) next with
+            | None => st
+            | Some d =>
+                (* h.SetCustomVerifier(m.signaturePayloadProvider); m.Validate(ctx, h, d) *)
+                if validate_p prov (l_last st) sh d then
+                  let h := sh_hdr sh in
+                  let r := exec (s_app (l_last st)) (h_height h) (h_time h) (d_txs d) in
+                  let new := next_state (l_last st) h r in
+                  let ws := block_writes (l_disk st) new sh d in
+                  try_sync_f f (tick flt)
+                    {| l_disk := apply_writes (l_disk st) ws; l_last := new;
+                       l_cache := after_apply (l_cache st) next sh;
+                       l_log := l_log st ++ [{| x_height := h_height h; x_time := h_time h;
+                                                x_prev := s_app (l_last st); x_txs := d_txs d |}];
+                       l_ws := l_ws st ++ ws; l_status := Running |}
+                else set_status st Halted
+            end
+        end
+    end.
+
+  Definition start_loop_f (nd : node) (c : cache) (flt : option nat) : loopst :=
+    try_sync_f (S (length (c_hdrs c))) flt
+      {| l_disk := n_disk nd; l_last := n_last nd; l_cache := c; l_log := n_log nd; l_ws := []; l_status := Running |}.
+
+  (* SyncLoop, case headerEvent: sync.go:38-69; the height is read first (sync.go:49-53) *)
+  Definition on_header_f (nd : node) (sh : sheader) (flt : option nat) : node * list wr :=
+    let h := sh_hdr sh in
+    if fault_now flt then (nd, [])
+    else if (h_height h <=? d_height (n_disk nd)) || hseen (n_cache nd) h then (nd, [])
+    else
+      let c1 := set_hdr (n_cache nd) (h_height h) sh in
+      let c2 := if is_empty_commitment (h_data h) then set_data c1 (h_height h) (empty_data h) else c1 in
+      finish nd (start_loop_f nd c2 (tick flt)) (fun c => add_hseen c h).
+
+  (* SyncLoop, case dataEvent: sync.go:70-111; the height is read after the seen test (sync.go:89-97) *)
+  Definition on_data_f (nd : node) (d : data) (flt : option nat) : node * list wr :=
+    match d_txs d, d_meta d with
+    | [], _ => (nd, [])
+    | _, None => (nd, [])
+    | _, Some m =>
+        if dseen (n_cache nd) (d_txs d) then (nd, [])
+        else if fault_now flt then (nd, [])
+        else if m_height m <=? d_height (n_disk nd) then (nd, [])
+        else finish nd (start_loop_f nd (set_data (n_cache nd) (m_height m) d) (tick flt)) (fun c => add_dseen c (d_txs d))
+    end.
+
+  Definition process_f (nd : node) (e : event) (flt : option nat) : node * list wr :=
+    match n_status nd with
+    | Running => match e with EvHeader sh _ => on_header_f nd sh flt | EvData d _ => on_data_f nd d flt end
+    | _ => (nd, [])
+    end.
+
+  (* a new process: as [boot]; the trySyncNextBlock call at the start of SyncLoop validates what the files
+     held with the Manager's provider *)
+  Definition boot_p (g : config) (m : img) (files : cache) (log : list call) : node * list wr :=
+    match boot_writes g m with
+    | Some (s, ws) =>
+        let st := try_sync_f (S (length (c_hdrs files))) None
+                    {| l_disk := apply_writes m ws; l_last := s; l_cache := files; l_log := log; l_ws := [];
+                       l_status := Running |} in
+        ({| n_disk := l_disk st; n_last := l_last st; n_cache := l_cache st; n_files := files;
+            n_status := l_status st; n_log := l_log st |}, ws ++ l_ws st)
+    | None => ({| n_disk := m; n_last := genesis_state g; n_cache := empty_cache; n_files := files;
+                  n_status := BootFailed; n_log := log |}, [])
+    end.
+
+  Definition fstep (g : config) (nd : node) (i : fitem) : node :=
+    match i with
+    | FEv e flt => fst (process_f nd e flt)
+    | FRestart => fst (boot_p g (n_disk nd) (restart_files nd) (n_log nd))
+    | FCrash e k =>
+        fst (boot_p g (crash_after k (n_disk nd) (snd (process_f nd e None))) (n_files nd) (n_log nd))
+    | FCrashBoot k =>
+        fst (boot_p g (crash_after k (n_disk nd) (snd (boot_p g (n_disk nd) (n_files nd) (n_log nd)))) (n_files nd) (n_log nd))
+    end.
+
+  Definition finit (g : config) : node := fst (boot_p g [] empty_cache []).
+  Definition frun_from (g : config) (nd : node) (h : list fitem) : node := fold_left (fstep g) h nd.
+  Definition frun (g : config) (h : list fitem) : node := frun_from g (finit g) h.
+
+  (* a proposer chain whose headers are signed over the payload of provider [prov] *)
+  Definition block_okb_p (g : config) (k : key) (prev : option header) (n : N) (t : Z) (r : root) (b : block) : bool :=
+    let '(sh, d) := b in
+    let h := sh_hdr sh in
+    (h_height h =? n) && (h_chain h =? g_chain g) &&
+    match h_last h, prev with
+    | None, None => true | Some x, Some y => header_eqb x y | _, _ => false end &&
+    (t <=? h_time h)%Z &&
+    commitment_eqb (d_txs d) (h_data h) &&
+    (h_app h =? r) &&
+    addr_eqb (h_proposer h) (Addr k) &&
+    verify_header (Pub k) (payload prov h) (sh_sig sh) &&
+    match sg_pub (sh_signer sh) with Some (Pub k') => k' =? k | None => false end &&
+    addr_eqb (sg_addr (sh_signer sh)) (Addr k) &&
+    match d_meta d with
+    | Some m => (m_chain m =? g_chain g) && (m_height m =? n) && (m_time m =? h_time h)%Z
+    | None => false
+    end.
+
+  Fixpoint chain_fromb_p (g : config) (k : key) (prev : option header) (n : N) (t : Z) (r : root) (C : list block) : bool :=
+    match C with
+    | [] => true
+    | b :: C' =>
+        block_okb_p g k prev n t r b &&
+        chain_fromb_p g k (Some (sh_hdr (fst b))) (n + 1) (h_time (sh_hdr (fst b)))
+                      (exec r n (h_time (sh_hdr (fst b))) (d_txs (snd b))) C'
+    end.
+
+  Definition ChainValidP (g : config) (k : key) (C : list block) : Prop :=
+    (1 <= g_initial g) /\ g_proposer g = Addr k /\
+    chain_fromb_p g k None (g_initial g) (g_time g) (g_initroot g) C = true.
+
+  Definition fitem_in (C : list block) (i : fitem) : Prop :=
+    match i with FEv e _ => ev_in C e | FCrash e _ => ev_in C e | FRestart => True | FCrashBoot _ => True end.
+  Definition fclean (i : fitem) : bool := match i with FEv _ _ | FRestart => true | _ => false end.
+
+  (* delivered and not lost: event [e_of da] occurs at some position p of h2 (after the past h1), its own
+     height read did not fail, and SyncLoop was running when it arrived *)
+  Definition delivered_live (g : config) (h1 h2 : list fitem) (e_of : N -> event) : Prop :=
+    exists p da flt, nth_error h2 p = Some (FEv (e_of da) flt) /\ flt <> Some O /\
+                     n_status (frun g (h1 ++ firstn p h2)) = Running.
+End WithProv.
